@@ -117,7 +117,7 @@ def configs(tier, seed):
         nss = ("numpy", "torch") if sampler in ("importance", "smc", "minipcn") else ("numpy",)
         if sampler == "smc" and tier == "thorough":
             nss = ("numpy", "torch", "jax")
-        for precond, ns, sd in itertools.product(("none", "periodic", "logit_affine", "probit"), nss, seeds):
+        for precond, ns, sd in itertools.product(("none", "tight", "periodic", "logit_affine", "probit"), nss, seeds):
             if sampler == "importance" and precond != "none":
                 continue
             for nfinal in (None, 12):
